@@ -38,6 +38,18 @@ pub fn run(ctx: &Ctx, out: &mut Out) {
             .collect();
         work.push((prog.render(), goals, coinductive));
     }
+    // ground dependency graphs built around the provisional-result motif (progen::provisional_program):
+    // the closed goals of the sequence, and the same with one unknown
+    let nprov = ctx.budget(100, 4000);
+    for i in 0..nprov {
+        let mut rng = ctx.rng(4, i as u64);
+        let co = rng.chance(1, 2);
+        let (text, _n, mut goals) = provisional_program(&mut rng, co);
+        let head = goals[0].clone();
+        goals.push(format!("exists<X> {{ not {{ {} }}, X: G }}", head));
+        goals.push(format!("exists<X> {{ X: G, {} }}", head));
+        work.push((text, goals, co));
+    }
     for (widx, (text, goals, coinductive)) in work.into_iter().enumerate() {
         if !ctx.mine(widx) {
             continue;
@@ -82,15 +94,33 @@ pub fn run(ctx: &Ctx, out: &mut Out) {
                     out.count("skipped_crashed_earlier");
                     continue;
                 }
-                let r = solve_fresh(&text, &peeled, choice);
+                // graph family: a work budget (the SLG solver does not return on some of them, F32)
+                let graph = text.contains("impl G for N");
+                let budget = if graph { Some(if name == "slg" { 2500 } else { 200_000 }) } else { None };
+                let r = solve_fresh_budget(&text, &peeled, choice, budget);
                 out.count(&format!("{}_{}", name, answer_kind(&r)));
                 let label = format!("{} | {} | goal {{ {} }}", name, text.replace('\n', " | "), gtext);
                 match r {
+                    Err(site) if site.contains("Negative subgoal had delayed_subgoals") => {
+                        out.fail(&format!("{} solver panicked: {}", name, site), &label, "slg_negative_subgoal_delayed_panic")
+                    }
+                    Err(site) if site == BUDGET_PANIC => out.fail(
+                        &format!("{} solver exceeded its work budget", name),
+                        &label,
+                        &format!("{}_work_budget_exceeded@{}", name, if graph { graph_shape(&text, &gtext) } else { "" }),
+                    ),
                     Err(site) => out.fail(&format!("{} solver panicked: {}", name, site), &label, "solver_panic"),
                     Ok(sol) => match answer_to_horn(&sol) {
                         None => out.count("answer_out_of_fragment"),
                         Some(ans) => {
-                            let req = judge_request(&horn, &sig, &hgoal, nvars, name == "slg", ans);
+                            let mut req = judge_request(&horn, &sig, &hgoal, nvars, name == "slg", ans);
+                            if graph {
+                                let shape = graph_shape(&text, &gtext);
+                                out.count(&format!("graph_shape_{}", shape));
+                                if let Sexp::List(v) = &mut req {
+                                    v.push(atom(&format!("{}-{}", name, shape)));
+                                }
+                            }
                             out.case(req.to_string(), "ACCEPT".to_string(), true, &label);
                         }
                     },
